@@ -344,6 +344,13 @@ def _run(ev, work, thorough):
     dh = [h for h in dh if h[-2]["kind"] == "append" and h[-2]["fault"] > 0
           and all(h[i].get("fault", 0) == 0 for i in range(0, len(h) - 2, 2))]
     ev.add_tlc("DatasetExport with Fault: histories whose last append fails", res, histories=len(dh))
+    # ... and the same after a removal: the dataset the refused append meets has a hole in its part numbers
+    dh2, res2 = D.export_histories(work, frames="FramesTiny", maxops=3, ops="OpsAppendRemove", fault=True)
+    dh2 = [h for h in dh2 if h[-2]["kind"] == "append" and h[-2]["fault"] > 0
+           and all(h[i].get("fault", 0) == 0 for i in range(0, len(h) - 2, 2))
+           and any(h[i]["kind"] == "remove" for i in range(0, len(h) - 2, 2))]
+    ev.add_tlc("DatasetExport with Fault, Ops = {append, remove}: a failing append after a removal", res2, histories=len(dh2))
+    dh = dh + dh2
     base = os.path.join(work, "hive")
     os.makedirs(base)
     hr = pmap(hive_reject_job, [(i, h, base) for i, h in enumerate(dh)], job_timeout=120)
